@@ -105,6 +105,9 @@ pub struct Knobs {
     pub spurious: bool,
     pub unix_listener: bool,
     pub wall_base_secs: u64,
+    /// give every simulated thread the 2 MiB stack std gives spawned threads (default: 256 KiB)
+    #[serde(default)]
+    pub std_stack: bool,
 }
 
 impl Default for Knobs {
@@ -115,6 +118,7 @@ impl Default for Knobs {
             spurious: false,
             unix_listener: false,
             wall_base_secs: 1_000_000_000,
+            std_stack: false,
         }
     }
 }
